@@ -458,6 +458,7 @@ func startRealClient(addr string, port int, token string, proxies []v1.ProxyConf
 	return fs.StartClient(proxies, nil, func(cc *v1.ClientCommonConfig) {
 		cc.Transport.HeartbeatInterval = I
 		cc.Transport.HeartbeatTimeout = T
+		cc.LoginFailExit = nil // hx.StartClient presets false; nil = the stock default (true) after Complete
 	})
 }
 
@@ -483,7 +484,7 @@ func scenSilentServer(addr string, I, T int64, answered int) scenResult {
 	defer f.close()
 	f.pongLimit = answered
 	names := []string{"ss-a", "ss-b"}
-	ports := []int{21410, 21411}
+	ports := []int{hx.FreePort(addr), hx.FreePort(addr)}
 	cl, err := startRealClient(addr, f.port(), hx.DefaultToken,
 		[]v1.ProxyConfigurer{tcpProxy(names[0], addr, 9, ports[0]), tcpProxy(names[1], addr, 9, ports[1])}, I, T)
 	if err != nil {
@@ -579,7 +580,15 @@ func scenSilentServer(addr string, I, T int64, answered int) scenResult {
 			res.problems = append(res.problems, "client watchdog, second session: "+why)
 		}
 	}
-	res.cases = append(res.cases, fmt.Sprintf("CRelogin %s %s %s", cfg, evs, coqList(sess)))
+	alive := true
+	select {
+	case <-cl.Done:
+		alive = false
+		res.ok = false
+		res.problems = append(res.problems, "frpc (loginFailExit at its default) exited")
+	default:
+	}
+	res.cases = append(res.cases, fmt.Sprintf("CRelogin true %s %s %s %s", cfg, evs, coqList(sess), coqBool(alive)))
 	res.info["closed_at_ms"], res.info["last_pong_ms"], res.info["pings_seen"] = s0.closedAt, lastp, len(s0.pings)
 	return res
 }
@@ -650,7 +659,7 @@ func echoThrough(addr string, port int) bool {
 //      counts them, the server comes back: the client re-registers everything ----
 func scenOutage(addr string, refusals int) scenResult {
 	res := scenResult{name: "outage_relogin", info: map[string]any{}}
-	port := 21400
+	port := hx.FreePort(addr)
 	mk := func() (*hx.Server, error) {
 		return hx.StartServer(addr, func(c *v1.ServerConfig) { c.BindPort = port; c.Transport.HeartbeatTimeout = 3 })
 	}
@@ -667,14 +676,16 @@ func scenOutage(addr string, refusals int) scenResult {
 	}
 	defer echo.Close()
 	names := []string{"out-a", "out-b", "out-c"}
-	rports := []int{21420, 21421, 21422}
+	rports := []int{hx.FreePort(addr), hx.FreePort(addr), hx.FreePort(addr)}
 	pcs := []v1.ProxyConfigurer{}
 	for i, n := range names {
 		pcs = append(pcs, tcpProxy(n, addr, echo.Port(), rports[i]))
 	}
+	// stock client configuration: loginFailExit is left at its default (true); it must only concern the FIRST login
 	cl, err := s.StartClient(pcs, nil, func(cc *v1.ClientCommonConfig) {
 		cc.Transport.HeartbeatInterval = 1
 		cc.Transport.HeartbeatTimeout = 3
+		cc.LoginFailExit = nil
 	})
 	if err != nil {
 		s.Close()
@@ -720,10 +731,12 @@ func scenOutage(addr string, refusals int) scenResult {
 		return res
 	}
 	f.refuse = true
-	// wait for the scripted number of refused logins
+	cfgTxt := fmt.Sprintf("[(1, %d); (2, %d); (3, %d)]", rports[0], rports[1], rports[2])
+	// wait for the scripted number of refused logins (LoginResp with Error), or for frpc to exit
 	var atts []time.Time
+	exited := false
 	deadline := time.Now().Add(time.Duration(refusals)*5*time.Second + 3*time.Second)
-	for time.Now().Before(deadline) {
+	for time.Now().Before(deadline) && !exited {
 		f.mu.Lock()
 		atts = append([]time.Time{}, f.attempts...)
 		f.mu.Unlock()
@@ -736,9 +749,31 @@ func scenOutage(addr string, refusals int) scenResult {
 		if len(atts) >= refusals {
 			break
 		}
-		time.Sleep(10 * time.Millisecond)
+		select {
+		case <-cl.Done:
+			exited = true
+		case <-time.After(10 * time.Millisecond):
+		}
+	}
+	if !exited {
+		// give a cancelled service the time to return from Run
+		select {
+		case <-cl.Done:
+			exited = true
+		case <-time.After(150 * time.Millisecond):
+		}
 	}
 	f.close()
+	if exited {
+		f.mu.Lock()
+		nref := len(f.attempts)
+		f.mu.Unlock()
+		res.problems = append(res.problems, fmt.Sprintf("frpc (stock loginFailExit) exited for good after %d refused re-login(s): first login ok, session lost, re-login answered with LoginResp.Error", nref))
+		res.info["client_exited_after_refusals"] = nref
+		res.cases = append(res.cases, fmt.Sprintf("CRelogin true %s [RLoginOk; RSessionEnd%s] %s false", cfgTxt,
+			strings.Repeat("; RLoginRefused", nref), coqList([]string{sessionSet(names, first)})))
+		return res
+	}
 	if len(atts) < refusals {
 		res.problems = append(res.problems, fmt.Sprintf("only %d login attempts seen during the outage", len(atts)))
 		return res
@@ -814,10 +849,17 @@ func scenOutage(addr string, refusals int) scenResult {
 	res.info["attempt_gaps_ms"] = gaps
 	res.info["max_attempts_per_second"] = maxPerSec
 	res.info["usable_ms_after_restore"] = tUsable.Sub(tRestore).Milliseconds()
-	cfg := fmt.Sprintf("[(1, %d); (2, %d); (3, %d)]", rports[0], rports[1], rports[2])
-	evs := "[RLoginOk; RSessionEnd" + strings.Repeat("; RLoginFail", len(allAtt)) + "; RLoginOk]"
+	evs := "[RLoginOk; RSessionEnd" + strings.Repeat("; RLoginRefused", len(allAtt)) + "; RLoginOk]"
+	stillRunning := true
+	select {
+	case <-cl.Done:
+		stillRunning = false
+		res.ok = false
+		res.problems = append(res.problems, "frpc exited")
+	default:
+	}
 	res.cases = append(res.cases,
-		fmt.Sprintf("CRelogin %s %s %s", cfg, evs, coqList([]string{sessionSet(names, first), sessionSet(names, second)})),
+		fmt.Sprintf("CRelogin true %s %s %s %s", cfgTxt, evs, coqList([]string{sessionSet(names, first), sessionSet(names, second)}), coqBool(stillRunning)),
 		fmt.Sprintf("CLoginGaps %d %s %d", 20*1000000000, zlist(gaps), slackMs))
 	return res
 }
